@@ -32,9 +32,9 @@ def do(act, self):
         LOG.append(("act", "f", None))
         try: f()
         finally: LOG.append(("act_end",))
-    elif act in ("g", "g2", "h"):
+    elif act in ("g", "g2", "h", "r"):
         LOG.append(("act", act, None))
-        try: {"g": g, "g2": g2, "h": h}[act]()
+        try: {"g": g, "g2": g2, "h": h, "r": r}[act]()
         finally: LOG.append(("act_end",))
     elif act in ("self.m", "other.m"):
         me = self if self is not None else OBJ["A"]
@@ -89,6 +89,7 @@ class E_g_post(Exception): pass
 class E_g2_pre(Exception): pass
 class E_g2_post(Exception): pass
 class E_h_post(Exception): pass
+class E_r_pre(Exception): pass
 class E_m_pre(Exception): pass
 class E_m_post(Exception): pass
 class E_K_inv(Exception): pass
@@ -97,6 +98,7 @@ def f_post(): return slot("f.post")
 def f_cap(): return slot("f.cap")
 def h_cap(): return slot("h.cap")
 def h_post(): return slot("h.post")
+def r_pre(): return slot("r.pre")
 def m_pre(self): return slot("m.pre", self)
 def m_post(self): return slot("m.post", self)
 def K_inv(self): return slot("K.inv", self)
@@ -123,6 +125,11 @@ g2 = make_g("g2", E_g2_pre, E_g2_post)
 def h():
     body_slot("h.body")
 
+# r has a precondition ONLY (no postcondition, no capture)
+@icontract.require(r_pre, error=E_r_pre)
+def r():
+    body_slot("r.body")
+
 @icontract.invariant(K_inv, error=E_K_inv)
 class K(icontract.DBC):
     def __init__(self, boom=False):
@@ -139,12 +146,12 @@ class K(icontract.DBC):
 KEEP = []
 '''
 
-CONTRACT_SLOTS = ["f.pre", "f.cap", "f.post", "g.pre", "g.post", "g2.pre", "g2.post", "h.cap", "h.post", "m.pre", "m.post", "K.inv"]
-BODY_SLOTS = ["f.body", "g.body", "g2.body", "h.body", "m.body", "K.init"]
+CONTRACT_SLOTS = ["f.pre", "f.cap", "f.post", "g.pre", "g.post", "g2.pre", "g2.post", "h.cap", "h.post", "r.pre", "m.pre", "m.post", "K.inv"]
+BODY_SLOTS = ["f.body", "g.body", "g2.body", "h.body", "r.body", "m.body", "K.init"]
 SLOTS = CONTRACT_SLOTS + BODY_SLOTS
-ACTIONS = ["f", "g", "g2", "h", "self.m", "other.m", "K()"]
+ACTIONS = ["f", "g", "g2", "h", "r", "self.m", "other.m", "K()"]
 EXT_ACTIONS = ACTIONS + ["K!()", "kept.m"]
-TOPS = ["f", "g", "g2", "h", "self.m", "K()"]
+TOPS = ["f", "g", "g2", "h", "r", "self.m", "K()"]
 
 
 def scripts(maxlen):
@@ -196,7 +203,7 @@ def programs(tier):
                     progs.append({a: sa, b: sb})
     if tier == "thorough":
         for a, b, c in itertools.combinations(SLOTS, 3):
-            small = [[x] for x in ("f", "g", "g2", "self.m", "other.m")]
+            small = [[x] for x in ("f", "g", "r", "self.m", "other.m")]
             for sa in small:
                 for sb in small:
                     for sc in small:
@@ -244,11 +251,11 @@ def ancestors(n):
         n = n.parent
 
 
-FUNC_CONTRACTS = {"f": {"f.pre", "f.cap", "f.post"}, "g": {"g.pre", "g.post"}, "g2": {"g2.pre", "g2.post"}, "h": {"h.cap", "h.post"},
+FUNC_CONTRACTS = {"f": {"f.pre", "f.cap", "f.post"}, "g": {"g.pre", "g.post"}, "g2": {"g2.pre", "g2.post"}, "h": {"h.cap", "h.post"}, "r": {"r.pre"},
                   "m": {"m.pre", "m.post"}}
-FULL = {"f": ["f.pre", "f.cap", "f.body", "f.post"], "g": ["g.pre", "g.body", "g.post"], "g2": ["g2.pre", "g2.body", "g2.post"],
+FULL = {"f": ["f.pre", "f.cap", "f.body", "f.post"], "g": ["g.pre", "g.body", "g.post"], "g2": ["g2.pre", "g2.body", "g2.post"], "r": ["r.pre", "r.body"],
         "h": ["h.cap", "h.body", "h.post"], "m": ["m.pre", "m.body", "m.post"]}
-BARE = {"f": ["f.body"], "g": ["g.body"], "g2": ["g2.body"], "h": ["h.body"], "m": ["m.body"]}
+BARE = {"f": ["f.body"], "g": ["g.body"], "g2": ["g2.body"], "h": ["h.body"], "r": ["r.body"], "m": ["m.body"]}
 
 
 def judge_tree(root, complete):
@@ -262,7 +269,7 @@ def judge_tree(root, complete):
             continue
         slots = [c for c in n.children if c.kind == "slot"]
         names = [c.name for c in slots]
-        if n.name in ("f", "g", "g2", "h", "m"):
+        if n.name in ("f", "g", "g2", "h", "r", "m"):
             own = FUNC_CONTRACTS[n.name]
             must = not any(a.kind == "slot" and a.name in own for a in ancestors(n))
             core_names = [x for x in names if x != "K.inv"]
@@ -368,7 +375,7 @@ def check_program(prog, acc):
         while stack:
             n = stack.pop()
             stack.extend(n.children)
-            if n.kind == "slot" and n.name in ("f.pre", "f.post", "g.pre", "g.post", "g2.pre", "g2.post", "h.post", "m.pre", "m.post", "K.inv"):
+            if n.kind == "slot" and n.name in ("f.pre", "f.post", "g.pre", "g.post", "g2.pre", "g2.post", "h.post", "r.pre", "m.pre", "m.post", "K.inv"):
                 call = n.parent
                 own = FUNC_CONTRACTS.get(call.name, set()) if call is not None and call.kind == "call" else set()
                 # evaluated as part of a checked call: the error has to propagate to the top (nobody catches)
@@ -405,11 +412,11 @@ def run(tier, t0):
     return core.finish(
         PROP, tier, tot, t0,
         rule="call-graph programs over f (pre/capture/post), g and g2 (pre/post, made by one factory: shared code objects), h (capture/post "
-             "only, no precondition), class K(DBC) with invariant, method m (pre/post), "
-             "constructor, instances A and B: every slot (12 contract slots, 6 body slots) may hold a script of 0-2 actions from "
-             "{f(), g(), g2(), h(), self.m(), other.m(), K()}, plus scripts using {K!() = a constructor whose body raises and whose error "
+             "only, no precondition), r (precondition only), class K(DBC) with invariant, method m (pre/post), "
+             "constructor, instances A and B: every slot (13 contract slots, 7 body slots) may hold a script of 0-2 actions from "
+             "{f(), g(), g2(), h(), r(), self.m(), other.m(), K()}, plus scripts using {K!() = a constructor whose body raises and whose error "
              "is handled, kept.m() = a call on the most recently constructed instance}; enumerated: every program with <= 2 (quick) / 3 (thorough) non-empty slots, "
-             "x 4 top-level actions x (all true | each evaluated condition falsy). A monitor checks on the real event tree that "
+             "x 7 top-level actions x (all true | each evaluated condition falsy). A monitor checks on the real event tree that "
              "the run terminates and that every call whose ancestors contain no evaluation of its own contracts (resp. no "
              "operation on the same object) is fully checked; re-entrant calls may be checked or bare; non-trivial = every program",
         assumptions=["body scripts run at most twice per run (the program's own recursion is finite); contract scripts are unguarded",
